@@ -309,4 +309,4 @@ def r6(case, rec):
             b = fs.scramble_pop_ids().fold()
         ok = ~np.ma.getmaskarray(b)
         require_close(np.ma.getdata(a)[ok], np.ma.getdata(b)[ok], 1e-11, 'scramble∘fold vs fold∘scramble', rec, atol=1e-300)
-    require(out.pop_ids == c['pop_ids'], 'labels after scrambling: %r expected %r' % (out.pop_ids, c['pop_ids']), what='scramble-labels')
+    require(out.pop_ids == c['pop_ids'], 'labels after scrambling: %r expected %r' % (out.pop_ids, c['pop_ids']), finding='scramble-labels')
